@@ -19,8 +19,10 @@ var (
 	mkC02 = func() []*sim.Mon { return []*sim.Mon{sim.MonC02()} }
 	mkC03 = func() []*sim.Mon { return []*sim.Mon{sim.MonC03()} }
 	mkC04 = func() []*sim.Mon { return []*sim.Mon{sim.MonC04()} }
+	mkC03sig = func() []*sim.Mon { return []*sim.Mon{sim.MonC03Signatures()} }
+	shC03sig = Shape{FlagFlips: true, ShareBound: 15, LockPressure: 30}
 	mkC10 = func() []*sim.Mon { return []*sim.Mon{sim.MonC10()} }
-	shC01 = Shape{EquivFocus: 35, LockPressure: 20, MaybeChanging: 14, ChangingFaults: 60}
+	shC01 = Shape{EquivFocus: 35, LockPressure: 20, MaybeChanging: 14, ChangingFaults: 60, FlagFlips: true}
 	shC02 = Shape{ShareBound: 25, EquivFocus: 20, MaybeChanging: 10, ChangingFaults: 70}
 	shC03 = Shape{ShareBound: 15, MaybeChanging: 8, ChangingFaults: 70}
 	shC04 = Shape{MaxN: 10, MaybeChanging: 12, ChangingFaults: 60}
@@ -49,6 +51,18 @@ func init() {
 	regSafety("C04", mkC04, shC04)
 	replayers["C04"] = append(replayers["C04"], func(vals []int, keepLog bool) *sim.World {
 		return RunNestedRecovery(&ReplaySrc{Vals: vals}, mkC04(), keepLog)
+	})
+	replayers["C03"] = append(replayers["C03"], func(vals []int, keepLog bool) *sim.World {
+		if len(vals) > 0 {
+			vals = vals[1:] // the share draw
+		}
+		return RunSafety(&ReplaySrc{Vals: vals}, mkC03sig(), keepLog, shC03sig)
+	})
+	replayers["C04"] = append(replayers["C04"], func(vals []int, keepLog bool) *sim.World {
+		if len(vals) > 0 {
+			vals = vals[1:] // the share draw
+		}
+		return RunRestartedSoloJudged(&ReplaySrc{Vals: vals}, mkC04(), keepLog)
 	})
 	regSafety("C10", mkC10, shC10)
 	replayers["C10"] = append(replayers["C10"], func(vals []int, keepLog bool) *sim.World {
@@ -142,6 +156,25 @@ func TestC03(t *testing.T) {
 			t.Fatalf("%s", fatal)
 		}
 	})
+	if t.Failed() {
+		return
+	}
+	// never two different commits / pre-commits at one height - also when the operator sets and clears a node's
+	// watch-only flag or withdraws its key in the middle of a height (a third of one more budget)
+	rapid.Check(t, func(t *rapid.T) {
+		src := &RapidSrc{T: t}
+		if src.Intn("flipshare", 3) != 0 {
+			return
+		}
+		w := RunSafety(src, mkC03sig(), false, shC03sig)
+		fatal := e.Report(w, src.Rec, func() string {
+			return RunSafety(&ReplaySrc{Vals: src.Rec[1:]}, mkC03sig(), true, shC03sig).Render()
+		})
+		e.Case(FPInts(src.Rec), w.Stats["c03_commitment_repeated_identically"] > 0 && (w.Stats["watch_flag_set_mid_view"] > 0 || w.Stats["watch_flag_cleared_mid_view"] > 0), w.Stats, func() any { return sampleOf(w, src.Rec) })
+		if fatal != "" {
+			t.Fatalf("%s", fatal)
+		}
+	})
 }
 
 func TestC04(t *testing.T) {
@@ -162,6 +195,25 @@ func TestC04(t *testing.T) {
 			return RunNestedRecovery(&ReplaySrc{Vals: src.Rec}, mkC04(), true).Render()
 		})
 		e.Case(FPInts(src.Rec), w.Stats["nested_recovery_view_changed"] > 0 && w.Stats["c04_viewchange_checked"] > 0, w.Stats, func() any { return sampleOf(w, src.Rec) })
+		if fatal != "" {
+			t.Fatalf("%s", fatal)
+		}
+	})
+	if t.Failed() {
+		return
+	}
+	// a validator restarted with empty state is handed back its own earlier messages: whatever it says in this life
+	// needs its evidence among what this instance was handed (half of one more budget)
+	rapid.Check(t, func(t *rapid.T) {
+		src := &RapidSrc{T: t}
+		if src.Intn("restartedshare", 2) != 0 {
+			return
+		}
+		w := RunRestartedSoloJudged(src, mkC04(), false)
+		fatal := e.Report(w, src.Rec, func() string {
+			return RunRestartedSoloJudged(&ReplaySrc{Vals: src.Rec[1:]}, mkC04(), true).Render()
+		})
+		e.Case(FPInts(src.Rec), w.Stats["c04_commit_checked"] > 0, w.Stats, func() any { return sampleOf(w, src.Rec) })
 		if fatal != "" {
 			t.Fatalf("%s", fatal)
 		}
